@@ -1195,6 +1195,96 @@ void prop_c07_enum(const vf::Case& c, Ctx& ctx)
     ctx.nontrivial = (w.max_depth >= 2 && w.structural_on_nonleaf) || w.cycle_attempt;
 }
 
+// ------------------------------------------------------------------------------------------------------ C07 (bounded-exhaustive, applicable operations only)
+// The 42-letter alphabet above wastes most of its sequences on letters that name a crate that does not exist. This enumeration
+// visits, at every state, only the letters that are applicable there (create root A|B and create sub-crate A|B of live crate k while
+// fewer than 4 crates are alive; rename live crate k to A|B; move live crate k under live crate j or to the root; remove live crate k):
+// 2 / 9 / 18 / 29 / 32 letters with 0 / 1 / 2 / 3 / 4 live crates. Case i is decoded in mixed radix with the radix of depth k being
+// the largest number of applicable letters any state at that depth can have (so every sequence of applicable letters of length <= L
+// from the empty library is visited; a digit beyond the applicable letters of the state actually reached ends the case early and
+// is counted as skipped). Shorter sequences are covered as prefixes.
+static const int C07_RADIX[5] = {2, 9, 18, 29, 32};
+inline std::vector<int> applicable_enum_ops(World& w)
+{
+    int n = static_cast<int>(w.live_crates().size());
+    std::vector<int> out;
+    for (int d = 0; d < C07_ALPHABET; ++d)
+    {
+        bool ok;
+        if (d < 2)
+            ok = n < 4;
+        else if (d < 10)
+            ok = n < 4 && (d - 2) / 2 < n;
+        else if (d < 18)
+            ok = (d - 10) / 2 < n;
+        else if (d < 38)
+            ok = (d - 18) / 5 < n && ((d - 18) % 5 == 4 || (d - 18) % 5 < n);
+        else
+            ok = d - 38 < n;
+        if (ok)
+            out.push_back(d);
+    }
+    return out;
+}
+inline uint64_t c07_dfs_total(int L, int nschemas)
+{
+    uint64_t n = nschemas;
+    for (int i = 0; i < L; ++i)
+        n *= C07_RADIX[std::min(i, 4)];
+    return n;
+}
+inline void prop_c07_dfs_impl(const vf::Case& c, Ctx& ctx, int L, bool all_schemas)
+{
+    uint64_t i = c[0].empty() ? 0 : c[0][0];
+    static const e::engine_schema reps[3] = {e::engine_schema::schema_1_6_0, e::engine_schema::schema_1_18_0_os, e::engine_schema::schema_2_21_2};
+    e::engine_schema schema;
+    if (all_schemas)
+    {
+        auto& all = e::supported_schemas;
+        size_t ns = std::distance(all.begin(), all.end());
+        auto it = all.begin();
+        std::advance(it, i % ns);
+        schema = *it;
+        i /= ns;
+    }
+    else
+    {
+        schema = reps[i % 3];
+        i /= 3;
+    }
+    ctx.label("schema=" + sname(schema));
+    World w(schema, e::create_temporary_database(schema));
+    w.hist = "schema " + sname(schema);
+    int done = 0;
+    for (int k = 0; k < L; ++k)
+    {
+        int radix = C07_RADIX[std::min(k, 4)];
+        int digit = static_cast<int>(i % radix);
+        i /= radix;
+        auto ops = applicable_enum_ops(w);
+        VF_CHECK(static_cast<int>(ops.size()) <= radix, w.hist << ": enumeration radix too small (harness defect)");
+        if (digit >= static_cast<int>(ops.size()))
+            break;
+        size_t before = w.hist.size();
+        apply_enum_op(w, ctx, ops[digit]);
+        VF_CHECK(w.hist.size() != before, w.hist << ": applicable letter was a no-op (harness defect)");
+        check_forest(w, w.hist);
+        ++done;
+    }
+    ctx.label(done == L ? "enum:full-length" : "enum:skipped");
+    ctx.label("live-crates=" + std::to_string(w.live_crates().size()));
+    if (w.max_depth >= 3)
+        ctx.label("depth>=3");
+    if (w.cycle_attempt)
+        ctx.label("cycle-attempt");
+    ctx.describe = w.hist;
+    ctx.key = w.hist;
+    ctx.nontrivial = done == L && ((w.max_depth >= 2 && w.structural_on_nonleaf) || w.cycle_attempt);
+}
+inline void prop_c07_dfs4(const vf::Case& c, Ctx& ctx) { prop_c07_dfs_impl(c, ctx, 4, false); }
+inline void prop_c07_dfs5(const vf::Case& c, Ctx& ctx) { prop_c07_dfs_impl(c, ctx, 5, false); }
+inline void prop_c07_dfs4all(const vf::Case& c, Ctx& ctx) { prop_c07_dfs_impl(c, ctx, 4, true); }
+
 // ------------------------------------------------------------------------------------------------------ C08
 inline void prop_c08(const vf::Case& c, Ctx& ctx)
 {
